@@ -16,12 +16,12 @@ noncomputable def normFac (n : ℕ) (m : ℤ) : ℝ := if m = 0 then (if n = 0 t
 noncomputable def azim (m : ℤ) (θ : ℝ) : ℝ := if m = 0 then 1 else if 0 < m then Real.cos ((m : ℝ) * θ) else Real.sin ((m : ℝ) * θ)
 
 theorem radialEval_zero_zero (ρ : ℝ) : radialEval 0 0 ρ = 1 := by
-  simp [radialEval, radialCoeff, fact, powK]
+  simp [radialEval, radialCoeff, Gen.radialNum, Gen.radialDen, Gen.fact, powK]
 
 /-- **the model's mode is normalisation · radial polynomial · azimuthal factor** -/
 theorem zReal_factor (j : ℕ) (ρ θ : ℝ) :
     zReal j ρ θ = normFac (nollN j) (nollM j) * radialEval (nollN j) (nollM j).natAbs ρ * azim (nollM j) θ := by
-  unfold zReal zernAt zernCore normFac azim
+  unfold zReal zernAt Gen.zernCore normFac azim
   by_cases h0 : nollM j = 0
   · by_cases hn : nollN j = 0
     · simp [h0, hn, radialEval_zero_zero]
@@ -135,5 +135,36 @@ theorem diskMean_modes (j j' : ℕ) :
     rw [intervalIntegral.integral_const_mul]; ring
   simp only [h1]
   rw [intervalIntegral.integral_const_mul]
+
+/-! ### arithmetic of Noll's constants (supporting lemmas; the property theorems are `mode_factorisation` / `zernike_orthonormal`) -/
+
+/-- **Noll's normalisation constants** give unit mean square over the unit disk: with `∫₀¹ (R_n^m)² ρ dρ = 1/(2(n+1))`
+(`radial_gram`) and the angular integral `2π` (m = 0) or `π` (cos², sin²; m ≠ 0), the mean `N²·(1/(2(n+1)))·(2π or π)/π` is 1
+for `N² = n+1` (m = 0) and `N² = 2(n+1)` (m ≠ 0) -/
+theorem normalisation_constants (n : Nat) (m : Int) :
+    ((normSq n m : Nat) : ℚ) * (1 / (2 * ((n : ℚ) + 1))) * (if m = 0 then 2 else 1) = 1 := by
+  have hn : (2 * ((n : ℚ) + 1)) ≠ 0 := by positivity
+  unfold normSq
+  split_ifs <;> (push_cast; field_simp)
+
+/-- the same with the angular integrals evaluated (Mathlib interval integrals): for m = 0 the angular factor is `∫₀^{2π} 1 = 2π`,
+for m ≥ 1 it is `∫₀^{2π} cos²(mθ) = ∫₀^{2π} sin²(mθ) = π`; with the radial norm `1/(2(n+1))` the mean square over the unit disk
+`N² · (1/(2(n+1))) · (angular integral)/π` is exactly 1 -/
+theorem normalisation_unit_mean_square (n m : ℕ) :
+    (((normSq n 0 : ℕ) : ℝ) * (1 / (2 * ((n : ℝ) + 1))) * ((∫ _θ in (0 : ℝ)..(2 * Real.pi), (1 : ℝ)) / Real.pi) = 1) ∧
+    (1 ≤ m →
+      ((normSq n m : ℕ) : ℝ) * (1 / (2 * ((n : ℝ) + 1))) * ((∫ θ in (0 : ℝ)..(2 * Real.pi), Real.cos ((m : ℝ) * θ) ^ 2) / Real.pi) = 1 ∧
+      ((normSq n (-(m : ℤ)) : ℕ) : ℝ) * (1 / (2 * ((n : ℝ) + 1))) * ((∫ θ in (0 : ℝ)..(2 * Real.pi), Real.sin ((m : ℝ) * θ) ^ 2) / Real.pi) = 1) := by
+  have hn : (2 * ((n : ℝ) + 1)) ≠ 0 := by positivity
+  have hpi : Real.pi ≠ 0 := Real.pi_ne_zero
+  constructor
+  · simp only [normSq, if_true, intervalIntegral.integral_const, sub_zero, smul_eq_mul, mul_one]
+    push_cast; field_simp
+  · intro hm
+    have m0 : ((m : ℤ) ≠ 0) := by omega
+    have m1 : (-(m : ℤ) ≠ 0) := by omega
+    rw [angular_cos_sq m hm, angular_sin_sq m hm]
+    simp only [normSq, if_neg m0, if_neg m1]
+    constructor <;> (push_cast; field_simp)
 
 end Lentil
